@@ -96,9 +96,9 @@ def judge(case, ctx):
     with run.Scratch("c05") as d:
         for f, txt in lib.files.items():
             run.write(os.path.join(d, f), txt)
-        r = igate.interrogate(d, ["l.h"], opts=["-python-native", "-string"], extra_search=lib.search)
+        r = igate.interrogate(d, lib.cmd_headers, opts=["-python-native", "-string"], extra_search=lib.search)
         if r.abnormal or r.rc != 0:
-            return Outcome(ok=False, key="igate:" + r.kind(), detail="interrogate failed (%s): %s\n%s" % (r.kind(), r.err.decode("latin-1")[-400:], lib.files["l.h"]))
+            return Outcome(ok=False, key="igate:" + r.kind(), detail="interrogate failed (%s): %s\n%s" % (r.kind(), r.err.decode("latin-1")[-400:], lib.files[lib.main]))
         db = igate.load_db(os.path.join(d, "l.in"))
     T = {t["index"]: t for t in db["types"]}
     F = {f["index"]: f for f in db["functions"]}
@@ -131,11 +131,24 @@ def judge(case, ctx):
                 return "%s %s carries the comment %s that belongs to another declaration (or is separated by a blank line)" % (what, ent["name"], other)
         return None
 
-    def check_sigs(ent, f, cls):
-        """wrappers of function f vs overloads of ent"""
+    def ov_exported(ent, ov, cls):
+        v = ov.get("vis", ent["vis"])
+        if cls is not None and v == "public" and cls.get("inpub"):
+            v = "published"
+        if cls is not None and v != "published":
+            return False
+        return not any(tt.kind == "enum" and tt.ref.get("cls") and tt.ref["vis"] in ("protected", "private")
+                       for tt in list(ov["params"]) + [ov["ret"]])
+
+    def check_sigs(ent, f, cls, group=None):
+        """wrappers of function f vs the exported overloads of ent (group: all same-named members of the class)"""
         ws = [W[i] for i in f["python_wrappers"] if i in W]
         feats = set()
+        group = group or [ent]
+        n_expected = sum(1 for x in group for ov in x["ovs"] if ov_exported(x, ov, cls))
         for ov in ent["ovs"]:
+            if not ov_exported(ent, ov, cls):
+                continue
             exp_params = []
             if cls is not None and not ent.get("static"):
                 this_shape = ("ptr", ("const", ("class", cls["qname"]))) if ent.get("const") else ("ptr", ("class", cls["qname"]))
@@ -163,15 +176,19 @@ def judge(case, ctx):
                 feats.add("default")
         if len(ent["ovs"]) > 1:
             feats.add("overload")
-        if len(ws) != len(ent["ovs"]):
-            return "%s: %d callable variants recorded for %d declared overloads" % (ent["name"], len(ws), len(ent["ovs"]))
+        if len(ws) != n_expected:
+            return "%s: %d callable variants recorded for %d exported overloads" % (ent["name"], len(ws), n_expected)
         return feats
 
     for c in lib.classes:
         if c["file"] not in ("main", "cwd") or lib.ns:
             continue
         t = Tname.get(c["qname"])
-        exported_members = [m for m in c["members"] if m["vis"] == "published" or (m["vis"] == "public" and c["inpub"])]
+        def m_exported(m):
+            if m["kind"] == "method":
+                return any(ov_exported(m, ov, c) for ov in m["ovs"])
+            return m["vis"] == "published" or (m["vis"] == "public" and c["inpub"])
+        exported_members = [m for m in c["members"] if m_exported(m)]
         if t is None or not (t["flags"] & idbfmt.TF["fully_defined"]):
             if exported_members and any(m["kind"] in ("method", "field", "property") for m in exported_members):
                 return fail("class-missing", "class %s has published members but no fully defined type record" % c["name"])
@@ -213,8 +230,16 @@ def judge(case, ctx):
                 if any(tt.kind == "enum" and tt.ref.get("cls") and tt.ref["vis"] in ("protected", "private") for tt in hgen._types_of(m)):
                     continue
                 f = method_names.get(m["name"])
+                group = [x for x in c["members"] if x["kind"] == "method" and x["name"] == m["name"]]
                 if f is None:
-                    if m.get("virt") and c["bases"]:
+                    if m.get("overrides") or (m.get("virt") and c["bases"]):
+                        b = c["bases"]
+                        inherited = [x for x in (b[0]["c"]["members"] if b else []) if x["kind"] == "method" and x["name"] == m["name"]]
+                        if len(b) == 1 and inherited and not (b[0]["acc"] == "public" and not b[0]["virt"] and all(
+                                (ov.get("vis", x["vis"]) == "published" or (ov.get("vis", x["vis"]) == "public" and b[0]["c"].get("inpub")))
+                                for x in inherited for ov in x["ovs"])):
+                            return fail("override-missing", "%s::%s overrides a method whose inherited flavours are not all published, "
+                                        "but it is not listed among the methods of %s" % (c["name"], m["name"], c["name"]))
                         continue
                     return fail("method-missing", "%s::%s is not listed among the methods of its class" % (c["name"], m["name"]))
                 if f["scoped_name"] != c["qname"] + "::" + m["name"]:
@@ -225,10 +250,12 @@ def judge(case, ctx):
                     return fail("role-flags", "%s::%s virtual flag is %r, declaration says %r" % (c["name"], m["name"], bool(f["flags"] & 2), m.get("virt")))
                 if T.get(f["class_"], {}).get("scoped_name") != c["qname"]:
                     return fail("member-of", "%s::%s is recorded as a member of %r" % (c["name"], m["name"], T.get(f["class_"], {}).get("scoped_name")))
-                res = check_sigs(m, f, c)
+                res = check_sigs(m, f, c, group)
                 if isinstance(res, str):
                     return fail("signature", res)
-                msg = check_comment(m, f["comment"], "method")
+                if m.get("overrides"):
+                    res = set(res) | {"override"}
+                msg = check_comment(m, f["comment"], "method") if len(group) == 1 and ov_exported(m, m["ovs"][0], c) else None
                 if msg:
                     return fail("comment", msg)
                 mf = set(res)
@@ -331,7 +358,7 @@ def judge(case, ctx):
                 return fail("typedef-target", "typedef %s recorded as wrapping %r" % (td["name"], T.get(tt["wrapped_type"], {}).get("scoped_name")))
             nt.append("typedef")
     return Outcome(ok=True, nontrivial=nt, classes=classes + sorted(lib.features),
-                   sample={"main_header": lib.files["l.h"].split("\n")[:30]})
+                   sample={"main_header": lib.files[lib.main].split("\n")[:30]})
 
 
 def worker(ctx, widx, stage, stats):
